@@ -14,7 +14,7 @@ func init() { register("C04", c04) }
 func c04(x *ctx) {
 	r := x.run
 	thorough := x.tier == "thorough"
-	r.Rule = "programs (corpus, generated, line-boundary prefixes, and cursor-after-dot variants: the file cut after an identifier/)/] at a line end with `.` appended, with and without the rest of the file) " +
+	r.Rule = "programs (corpus, generated, line-boundary prefixes, and cursor-after-dot variants: the file cut after an identifier/)/] at a line end with `.` appended, with and without the rest of the file; and the buffer cut right after an identifier with a just-opened construct appended: `[`, `[0`, `(`, `(1, `, ` do |`, ` { |v`, `.zq(`, `[:k`, ` = [`, ` = {a: `) " +
 		"x every row 0..lines+2 (cursor variants: rows cursor-1..cursor+1) x {--suggest, --hover, --define}; each executed on the real code: exit status 0, no Go panic, no hang, every output line a %/@/$ record or a diagnostic of the target file; " +
 		"non-trivial = prints at least one record"
 	modes := []string{"--suggest", "--hover", "--define"}
@@ -54,8 +54,9 @@ func c04(x *ctx) {
 		if thorough {
 			nVar = len(small)
 		}
-		for pi, p := range small {
-			if pi >= nVar {
+		genProgs := gen.Generated()
+		for pi, p := range append(append([]gen.Prog{}, genProgs...), small...) {
+			if pi >= nVar+len(genProgs) {
 				break
 			}
 			ls := strings.Split(strings.TrimSuffix(p.Src, "\n"), "\n")
@@ -80,6 +81,21 @@ func c04(x *ctx) {
 					withDot += "\n"
 				}
 				withDot += last + "."
+				// the buffer ends inside a construct the user has just opened after that identifier
+				if c != ')' && c != ']' {
+					for oi, open := range []string{"[", "[0", "(", "(1, ", " do |", " { |v", ".zq(", "[:k", " = [", " = {a: "} {
+						if !thorough && (k+oi)%3 != 0 {
+							continue // quick: a third of the (line, construct) pairs
+						}
+						cut := strings.TrimSuffix(withDot, ".") + open
+						for _, m := range modes {
+							if !thorough && m != []string{"--suggest", "--hover", "--define"}[(k+oi)%3] {
+								continue
+							}
+							em("cursor-in-open-construct", p.Name, cut, k, m)
+						}
+					}
+				}
 				variants := []string{withDot + "\n", withDot + "\n" + strings.Join(ls[k:], "\n") + "\n", withDot}
 				for vi, v := range variants {
 					for _, row := range []int{k - 1, k, k + 1} {
